@@ -140,8 +140,8 @@ class InterpBase:
         key = (module, name)
         if key in self._live_cache:
             return self._live_cache[key]
-        if self.top is not None and name in self.top.bind:
-            raise Unsupported("bind handled in run_function")
+        if self.top is not None and name in self.top.bind and name in getattr(self, "bound_globals", {}):
+            return self.bound_globals[name]      # module constant bound to a symbol by the contract (any module)
         mod = self.live["modules"].get(module)
         if mod is not None and name in mod:
             v = self.decode_live(mod[name], module)
